@@ -2,6 +2,7 @@ pub mod c02;
 pub mod c03;
 pub mod c04;
 pub mod c05;
+pub mod c15;
 pub mod c16;
 pub mod c18;
 pub mod parse;
